@@ -27,6 +27,13 @@ def _check_key(key, depth, rng):
             probs.append(f"{name}: {len(a)} values for depth {depth}")
         if any(not (0 <= v < 2**64) for v in a):
             probs.append(f"{name}: value outside 64 bits")
+        # ... and an answer a caller keeps is not changed by later calls (another key, another depth)
+        kept = fn(key, depth)
+        kept_copy = list(kept)
+        fn(b"other-key" if isinstance(key, bytes) else "other-key", depth)
+        fn(key, d2)
+        if list(kept) != kept_copy:
+            probs.append(f"{name}: an answer kept by the caller changed when the strategy was called again (answers share storage)")
         # a pure function of (key, depth): what a caller does to one answer cannot change the next one
         want = list(a)
         if isinstance(a, list):
@@ -74,11 +81,20 @@ def _check_key(key, depth, rng):
             a.clear()
         if list(fn(key, depth)) != want:
             probs.append(f"hash_with_depth_int({nm}): answer changes after a caller modified an earlier answer")
+        kept = fn(key, depth)
+        fn("other-key", d2)
+        if list(kept) != want:
+            probs.append(f"hash_with_depth_int({nm}): an answer kept by the caller changed when the strategy was called again")
     for nm in ("fnvle", "chain"):
         fn = H.hash_with_depth_bytes(inner_bytes(nm))
         a = fn(key, depth)
-        if len(a) != depth or fn(key, d2)[:depth] != a or a != fn(key, depth):
+        a_copy = list(a)
+        if len(a) != depth or fn(key, d2)[:depth] != a_copy or a_copy != list(fn(key, depth)):
             probs.append(f"hash_with_depth_bytes({nm}): length/prefix/determinism")
+        fn(b"other-key", d2)
+        if list(a) != a_copy:
+            probs.append(f"hash_with_depth_bytes({nm}): an answer kept by the caller changed when the strategy was called again (answers share storage)")
+        a = a_copy
         if isinstance(key, str) and fn(key.encode("utf-8"), depth) != a:
             probs.append(f"hash_with_depth_bytes({nm}): text != utf-8 bytes")
     return probs
